@@ -187,3 +187,46 @@ LIBRARY = {
     'matfree': matfree, 'temp_offset': temp_offset, 'branches': branches, 'ratio': ratio,
 }
 IMPLICIT = {'implicit': implicit, 'implicit_asm': lambda: implicit(True)}
+
+
+# ------------------------------------------------------------------------------------------------
+# index-form family (thorough tier of C04): one source, one consumer, every NumPy index form the
+# connection API documents, each wired by connect or by promotes(src_indices=...), with and without
+# a unit conversion on the connection.  (A 2-D array of flat indices is not in the family: OpenMDAO reads a
+# nested sequence as a multi-dimensional indexer and rejects it at setup with a deprecation warning.)
+IDX_FORMS = [
+    ((6,), [0, -1, 3, 3], True),
+    ((6,), slice(None, None, -2), True),
+    ((6,), slice(-2, None), True),
+    ((6,), slice(4, 0, -1), True),
+    ((3, 2), slice(1, 5, 2), True),
+    ((2, 3), [-6, 5], True),
+    ((2, 3), (slice(None), [0, 2]), False),
+    ((2, 3), ([1, 0, -1], [0, -1, 1]), False),
+    ((2, 3), (-1, slice(None)), False),
+    ((2, 3), (slice(None, None, -1), slice(1, None)), False),
+    ((2, 3), (Ellipsis, 1), False),
+]
+IDX_UNITS = {'none': (None, None), 'len': ('m', 'cm'), 'temp': ('degC', 'degF')}
+
+
+def idx_form(k, via='connect', units='none'):
+    shape, idx, flat = IDX_FORMS[k]
+    su, tu = IDX_UNITS[units]
+    P = Prog(f'idx_form{k}_{via}_{units}')
+    a = P.indep('a', shape, units=su, kind='ivc' if via == 'connect' else 'auto')
+    probe = np.empty(shape)
+    ishape = (probe.reshape(-1)[idx] if flat else probe[idx]).shape
+    n = int(np.prod(ishape))
+    terms = {'y': [[T(1, ('x', j, 1), ('x', (j + 1) % n, 1)), T(j + 2, ('x', j, 1))] for j in range(n)]}
+    c1 = P.comp('c1', '' if via == 'connect' else 'g', {'x': In(a, [(idx, flat)], shape=ishape, units=tu, via=via)},
+                {'y': dict(shape=(n,))}, terms, 'dense')
+    if via != 'connect':
+        P.defaults['a'] = dict(units=su, val='ones')
+    P.ofs, P.wrts = [c1['y'].abs], [a.abs if via == 'connect' else 'a']
+    P.features = ['index form ' + repr(idx), 'flat' if flat else 'non-flat', via, units]
+    return P
+
+
+IDX_FAMILY = {f'idx_form{k}_{via}_{units}': (lambda k=k, via=via, units=units: idx_form(k, via, units))
+              for k in range(len(IDX_FORMS)) for via in ('connect', 'promote') for units in IDX_UNITS}
